@@ -956,6 +956,20 @@ pub fn burst_cases(_t: crate::engine::Tier) -> Vec<RawCase> {
         let b = ROp::VideoDts { pts: Ts::Rel(-3000, 0), dts: Ts::Rel(3000, 0), frame: VF { kind: VKind::Delta, size: 8, shape: 2 }, key: false };
         out.push(RawCase { codec, video_configured: true, audio: 0, rate_idx: 3, channels: 1, fast_start: nb % 2 == 0, title: None, ops: vec![vkey(Ts::Abs(0, 0)), p, b, ROp::Finish(1)], start: 0, repeat: vec![(2, nb - 1)] });
     }
+    // two video samples with the same presentation time (a field pair / hidden frame + shown frame) at the presentation tail,
+    // the second with the longer decode duration, then earlier-presented frames
+    {
+        let vd = |pts: i64, dts: i64| ROp::VideoDts { pts: Ts::Rel(pts, 0), dts: Ts::Rel(dts, 0), frame: VF { kind: VKind::Delta, size: 9, shape: 1 }, key: false };
+        for codec in [0u8, 2] {
+            let ops = vec![vkey(Ts::Abs(0, 0)), vd(18_000, 9_000), vd(16_200, 1_800), vd(-9_000, 7_200), vd(-9_000, 9_000), ROp::Finish(1)];
+            out.push(RawCase { codec, video_configured: true, audio: 0, rate_idx: 3, channels: 1, fast_start: codec == 0, title: None, ops, start: 0, repeat: vec![] });
+        }
+    }
+    // both tracks end on exactly the same tick (25 fps x 8 frames = 48 kHz AAC x 15 frames; x 256 / 480; 50 fps with 20 ms Opus)
+    for (audio, vstep, nv, astep, na) in [(1u8, 3600i64, 8u16, 1920i64, 15u16), (1, 3600, 256, 1920, 480), (7, 1800, 40, 1800, 40)] {
+        let ops = vec![vkey(Ts::Abs(0, 0)), vdelta(Ts::Rel(vstep, 0), 0), aud(Ts::RelFirstVideo(0, 0), AKind::Valid, 33), aud(Ts::Rel(astep, 0), AKind::Valid, 33), ROp::Finish(1)];
+        out.push(RawCase { codec: 1, video_configured: true, audio, rate_idx: 3, channels: 1, fast_start: true, title: None, ops, start: 0, repeat: vec![(1, nv - 2), (3, na - 2)] });
+    }
     // automatic clocks advanced by the largest legal steps: the accumulated time crosses 2^32 ms (49.7 days) and 2^32 samples long
     // before the number of calls is large; every call must still be accepted (the gap fits 32 bits each time)
     for (codec, ms, n) in [(2u8, 47_721_858u32, 200u16), (3, 40_000_000, 150), (0, 1_000_000, 5000)] {
